@@ -170,6 +170,7 @@ func c09Mode(o *cli.Opts, run *evid.Run, bin, mode string) {
 		}
 	}
 	pendingUpload(o, run, ks, srv, key+"/upload-pending")
+	abandonedClients(o, run, ks, srv, key+"/abandoned-clients", 2)
 	// two requests that take long from the server's point of view (the body arrives in two segments 33 s - thorough
 	// 130 s - apart, as over a slow link or with a large production document), in flight during the whole history:
 	// a valid batch must still get its proof, an unsatisfiable one its proving_error
